@@ -161,7 +161,10 @@ class J1939_21:
         # check receive buffers for timeout
         # using "list(x)" to prevent "RuntimeError: dictionary changed size during iteration"
         for bufid in list(self._rcv_buffer):
-            buf = self._rcv_buffer[bufid]
+            buf = self._rcv_buffer.get(bufid)
+            if buf is None:
+                # removed by the receive path since the snapshot was taken
+                continue
             if buf['deadline'] != 0:
                 if buf['deadline'] > now:
                     if next_wakeup > buf['deadline']:
@@ -173,7 +176,7 @@ class J1939_21:
                         # TODO: should we handle retries?
                         self.__send_tp_abort(buf['dest_address'], buf['src_address'], self.ConnectionAbortReason.TIMEOUT, buf['pgn'])
                     # TODO: should we notify our CAs about the cancelled transfer?
-                    del self._rcv_buffer[bufid]
+                    self._rcv_buffer.pop(bufid, None)
 
         # check send buffers
         # using "list(x)" to prevent "RuntimeError: dictionary changed size during iteration"
